@@ -95,6 +95,8 @@ Drain(drained, recycles, cap) ==
 (*   pushes, pops       free-list operations (LockFreeMemoryPool fast bins): what was pushed and  *)
 (*                      not popped are the recycled blocks nobody owns                            *)
 (*   allocated, csz, chunks   bytes held from the system = chunk size * (cached + owned chunks)   *)
+(*   availb, totalb, bsz, hascap   capacity in bytes still available / in total, bytes one block  *)
+(*                      accounts for, has_capacity(): what is not out is available                *)
 F(c, f) == f \in DOMAIN c
 Counters(c, cap) ==
     /\ (F(c, "allocs") /\ F(c, "deallocs")) =>
@@ -112,5 +114,7 @@ Counters(c, cap) ==
           /\ c.pushes >= c.pops
           /\ c.pushes - c.pops + Cardinality(DOMAIN owner \ big) = Cardinality(seen \ big)
     /\ (F(c, "allocated") /\ F(c, "csz") /\ F(c, "chunks")) => c.allocated = c.csz * (c.chunks + Live)
+    /\ (F(c, "availb") /\ F(c, "totalb") /\ F(c, "bsz")) => c.availb + Live * c.bsz = c.totalb
+    /\ F(c, "hascap") => ((cap > 0 /\ Live < cap) => c.hascap)
     /\ UNCHANGED pvars
 =============================================================================
